@@ -917,16 +917,23 @@ def finish_with_search(ctx):
     ctx.finish()
 
 
-def replay_file(ctx, path, harness_cmd, driver_cmd, env=None, judge=None):
-    """Re-execute a replay produced by seq_correspondence on the current tree."""
+def replay_file(ctx, path, harness_cmd, driver_cmd, env=None, judge=None, repeat=1):
+    """Re-execute a replay produced by seq_correspondence on the current tree. repeat > 1: for
+    harnesses with real threads / sockets, whose failures depend on timing, the operations are run up
+    to that many times and the first failing run is the one reported."""
     r = json.load(open(path))
     ops = r.get("ops") or (r.get("model_difference") or {}).get("ops")
     if not ops:
         print("replay has no operation list (names a broken obligation): %s" % r.get("broken"))
         return 2
-    a = run_one(harness_cmd, ops, env=env)
     b = run_one(driver_cmd, ops)
     mo, sp = split_model_spec([b])
+    for k in range(max(1, repeat)):
+        a = run_one(harness_cmd, ops, env=env)
+        if a["crash"] or first_spec_diff(a["out"], sp[0]) or (judge and judge(ops, a["out"])):
+            if repeat > 1:
+                print("run %d of %d fails" % (k + 1, repeat))
+            break
     print("ops:", ops)
     print("implementation:", a["out"], "crash:", a["crash"])
     print("model:", mo[0]["out"])
